@@ -38,9 +38,24 @@ inductive Site where
   | coef         -- the coefficient array in the monotone tail of glamfit_complex
 deriving Repr, DecidableEq
 
+/-- A quantity that the C code keeps in an integer type narrower than its mathematical range (used by the width-aware
+    model `PsV.Fit.fitBodyW` in Model/FitEntry.lean). -/
+inductive Width where
+  | ndimU32      -- `ndim = data.ndim`: `size_t` → `uint32_t` (and the `uint32_t` loop counters of `fit`)
+  | orderInt     -- `uint32_t order[i]` passed as `int order` to bsplinebasis / divided_diffs
+  | porderInt    -- `uint32_t porder` passed as `int porder` to divided_diffs
+  | rowInt       -- `long row` of calc_penalty passed as `int j` to divided_diffs
+  | vlaInt       -- `order+1` evaluated in `int` for `double a[order+1], b[order+1]`
+  | knotIdxInt   -- the `int` index expressions `j+order+1`, `j+porder`, `i+n+1` into a knot vector
+  | basisCol | basisRow | basisK   -- the `int` loop counters `col`, `row`, `k` of bsplinebasis
+  | stride1 | stride2 | strideMul  -- the `long` products `stride1`, `stride2`, `i*stride2` in the tail of glamfit_complex
+deriving Repr, DecidableEq
+
 inductive Fault where
   | oob (site : Site) (len idx : Nat)     -- access outside `[0,len)`
   | vlaBound (site : Site) (n : Nat)      -- variable-length array declared with a non-positive bound
+  | width (w : Width) (v : Nat)           -- value `v` does not fit the signed type that holds it: signed overflow (UB) or
+                                          -- an out-of-range conversion (implementation-defined); the model stops there
 deriving Repr, DecidableEq
 
 /-- Outcome of a block of statements: fell through, threw, or touched memory it must not touch. -/
@@ -69,7 +84,8 @@ def forN : Nat → (Nat → Out) → Out
 def rd (s : Site) (len i : Nat) : Out := if i < len then .ok else .fault (.oob s len i)
 def vla (s : Site) (n : Nat) : Out := if 0 < n then .ok else .fault (.vlaBound s n)
 def throwIf (c : Bool) (e : Err) : Out := if c then .reject e else .ok
-def Out.when (c : Bool) (x : Out) : Out := if c then x else .ok
+/- `macro_inline`: the compiled driver must not evaluate a skipped block (a skipped loop may be astronomically long) -/
+@[macro_inline] def Out.when (c : Bool) (x : Out) : Out := if c then x else .ok
 
 def U64 : Nat := 2^64
 def U32 : Nat := 2^32
